@@ -8,19 +8,21 @@ from .common import MachineryError, scratch
 TRIVIAL_RULE = "pattern:\n- zzzzzz\n"
 
 
-def parse_texts(texts, tag, rule=None):
-    """Run the real code (assembly mode, stream return mode) on every text."""
+def parse_texts(texts, tag, rule=None, **job_extra):
+    """Run the real code (assembly mode, stream return mode) on every text.
+    job_extra: debug_level=True (the logger at DEBUG level), interleave=<rule yaml> (another rule compiled between
+    the compilation and the matching)."""
     global TRIVIAL_RULE
     saved = TRIVIAL_RULE
     if rule is not None:
         TRIVIAL_RULE = rule
     try:
-        return _parse_texts(texts, tag)
+        return _parse_texts(texts, tag, job_extra)
     finally:
         TRIVIAL_RULE = saved
 
 
-def _parse_texts(texts, tag):
+def _parse_texts(texts, tag, job_extra=None):
     job = {"rules": [{"id": 0, "yaml": TRIVIAL_RULE}],
            "listings": [{"id": n, "text": t} for n, t in enumerate(texts)],
            "pairs": "all", "stream_only": True, "isolate": True, "repeat": True}
@@ -28,6 +30,7 @@ def _parse_texts(texts, tag):
     nrules = min(64, max(1, len(texts) // 20))
     job["rules"] = [{"id": r, "yaml": TRIVIAL_RULE} for r in range(nrules)]
     job["pairs"] = [[n % nrules, n] for n in range(len(texts))]
+    job.update(job_extra or {})
     obs = matchpipe.drive(job, tag=tag)
     obs.sort(key=lambda o: o["l"])
     return obs
